@@ -96,6 +96,8 @@ def rs(s, S, ind, out):
         rbody(s[2], S, ind + 1, out)
     elif k == "unique":
         out.append("%svsc.unique(%s)" % (pad, ", ".join(rx(x, S) for x in s[1])))
+    elif k == "uniql":
+        out.append("%svsc.unique(%s.%s)" % (pad, S, s[1]))
     elif k == "uvec":
         out.append("%svsc.unique_vec(%s)" % (pad, ", ".join("%s.%s" % (S, x) for x in s[1])))
     elif k == "foreach":
